@@ -53,7 +53,9 @@ THEOREMS = [
     'C02_C_K_any_axis_locus_sense',
     'C02_inadmissible_cards_raise',
     'C02_number_items_spec',
+    'C02_numbered_ids_select_regions',
     'C02_spec_sanity',
+    'C02_sense_value_sign',
 ]
 
 TRUSTED = [
